@@ -5,7 +5,10 @@ import re
 
 from vlib import read_jsonl, canon_hash
 
-THEOREMS = []
+THEOREMS = ["C09_tree_consistent", "C09_tree_watch_inverse", "C09_tree_count", "C09_events_at_most_once",
+            "C09_stopped_had_poststop", "C09_children_first_partial", "C09_children_first_order_partial",
+            "C09_stopped_on_return_partial", "C09_concurrent_stop_refuted", "C09_children_first_repaired",
+            "C09_stopped_on_return_repaired", "C09_spawn_race_refuted"]
 
 # ---------------------------------------------------------------------------------------------
 # (S) tree ops
@@ -171,20 +174,40 @@ def tree_oracle(case, steps):
     return None
 
 
-def tree_tie(ctx, stats):
-    cases = gen_tree_cases(ctx)
+def go_run(ctx):
+    """one `go test` for both harness parts; returns (rc, output)"""
+    for fn in ("c09_tree_out.jsonl", "c09_stop_out.jsonl"):
+        pth = os.path.join(ctx.work, fn)
+        if os.path.exists(pth):
+            os.remove(pth)
+    return ctx.go_test("actor", "^TestVerifC09", ["zz_verif_C09_test.go", "zz_verif_C09_stop_test.go"])
+
+
+def write_inputs(ctx, cases, scs):
     with open(os.path.join(ctx.work, "c09_tree_in.jsonl"), "w") as f:
         for c in cases:
             f.write(json.dumps(c) + "\n")
-    outp = os.path.join(ctx.work, "c09_tree_out.jsonl")
-    if os.path.exists(outp):
-        os.remove(outp)
-    rc, out = ctx.go_test("actor", "^TestVerifC09Tree$", ["zz_verif_C09_test.go", "zz_verif_C09_stop_test.go"])
-    outs = read_jsonl(outp)
-    if rc != 0 or len(outs) != len(cases):
-        ctx.tie_broken("go-harness actor.tree op sequences", out)
-        if len(outs) != len(cases):
-            return
+    with open(os.path.join(ctx.work, "c09_stop_in.jsonl"), "w") as f:
+        for c in scs:
+            f.write(json.dumps({k: c[k] for k in ("n", "gated", "actions", "expect")}) + "\n")
+
+
+def both_ties(ctx, stats):
+    cases = gen_tree_cases(ctx)
+    scs = gen_scenarios(ctx, False)
+    write_inputs(ctx, cases, scs)
+    rc, out = go_run(ctx)
+    touts = read_jsonl(os.path.join(ctx.work, "c09_tree_out.jsonl"))
+    souts = read_jsonl(os.path.join(ctx.work, "c09_stop_out.jsonl"))
+    if rc != 0 or len(touts) != len(cases) or len(souts) != len(scs):
+        ctx.tie_broken("go-harness (tree ops + stop scenarios)", out)
+    if len(touts) == len(cases):
+        tree_tie(ctx, stats, cases, touts)
+    if len(souts) == len(scs):
+        stop_tie(ctx, stats, scs, souts)
+
+
+def tree_tie(ctx, stats, cases, outs):
     # ---- property oracle on the implementation
     n_bad = 0
     hist = {}
@@ -250,5 +273,446 @@ Eval vm_compute in summary.
                   "samples": [{"tree_case": cases[5]}] if len(cases) > 5 else []})
 
 
-def stop_tie(ctx, stats):
-    pass
+
+
+# ---------------------------------------------------------------------------------------------
+# (A) stop scenarios: Python mirror of C09/StopModel.v's driver level. It is used ONLY to generate
+# scenarios (which gates can be released next) and to tell the Go harness what to wait for; the
+# comparison with the implementation is done by the Coq model itself (cases.v).
+# ---------------------------------------------------------------------------------------------
+class Act:
+    __slots__ = ("running", "stopping", "started", "sp", "pend", "par", "ph", "reg", "kids", "snap")
+
+    def __init__(self):
+        self.running = self.stopping = self.started = False
+        self.sp = "idle"
+        self.pend = []
+        self.par = None
+        self.ph = None
+        self.reg = False
+        self.kids = []
+        self.snap = []
+
+
+class StopSim:
+    def __init__(self, n, gated, ws=False):
+        self.n, self.gated, self.ws = n, set(gated), ws
+        self.A = [Act() for _ in range(n + 1)]
+        r = self.A[0]
+        r.running = r.started = r.reg = True
+        self.trace = []
+        self.term = []
+
+    def is_running(self, a):
+        x = self.A[a]
+        return x.running and not x.stopping
+
+    def children(self, a):
+        return [c for c in self.A[a].kids if self.A[c].reg]
+
+    def subtree(self, a, fuel):
+        out = [a]
+        if fuel > 0:
+            for c in self.children(a):
+                out += self.subtree(c, fuel - 1)
+        return out
+
+    def step(self, l):
+        k = l[0]
+        A = self.A
+        if k == "StopBegin":
+            x = A[l[1]]
+            if x.sp == "idle" and x.running:
+                x.stopping = True
+                x.sp = "locked"
+                return True
+            return False
+        if k == "Snapshot":
+            x = A[l[1]]
+            if x.sp != "locked":
+                return False
+            cs = self.children(l[1])
+            x.sp, x.pend, x.snap = "kids", [[c, "todo"] for c in cs], list(cs)
+            return True
+        if k == "DisownTest":
+            x, c = A[l[1]], l[2]
+            if x.sp != "kids":
+                return False
+            for e in x.pend:
+                if e[0] == c:
+                    if e[1] != "todo":
+                        return False
+                    call = self.is_running(c) or (self.ws and A[c].stopping)
+                    x.kids = [y for y in x.kids if y != c]
+                    if call:
+                        for e2 in x.pend:
+                            if e2[0] == c:
+                                e2[1] = "wait"
+                    else:
+                        x.pend = [e2 for e2 in x.pend if e2[0] != c]
+                    return True
+            return False
+        if k == "DisownDone":
+            x, c = A[l[1]], l[2]
+            if x.sp != "kids":
+                return False
+            for e in x.pend:
+                if e[0] == c:
+                    if e[1] == "wait" and A[c].sp == "idle" and not A[c].running:
+                        x.pend = [e2 for e2 in x.pend if e2[0] != c]
+                        return True
+                    return False
+            return False
+        if k == "PostBegin":
+            x = A[l[1]]
+            if x.sp == "kids" and not x.pend:
+                x.sp = "post"
+                self.trace.append(("PostB", l[1]))
+                return True
+            return False
+        if k == "PostEnd":
+            x = A[l[1]]
+            if x.sp != "post":
+                return False
+            x.running = x.stopping = False
+            x.sp = "idle"
+            self.trace.append(("PostE", l[1]))
+            self.term.append(l[1])
+            return True
+        if k == "SpawnCheck":
+            p, c = l[1], l[2]
+            x = A[c]
+            if x.par is None and x.ph is None and self.is_running(p) and not x.started and c != 0 and c != p:
+                x.par, x.ph = p, "checked"
+                return True
+            return False
+        if k == "SpawnInit":
+            x = A[l[1]]
+            if x.ph != "checked":
+                return False
+            x.running, x.started, x.ph = True, True, "inited"
+            self.trace.append(("Pre", l[1]))
+            return True
+        if k == "SpawnAdd":
+            x = A[l[1]]
+            if x.ph != "inited" or x.par is None:
+                return False
+            p = A[x.par]
+            x.ph = None
+            x.reg = p.reg
+            if p.reg:
+                p.kids = p.kids + [l[1]]
+            return True
+        if k == "Reap":
+            if not self.term or self.term[0] != l[1]:
+                return False
+            a = self.term.pop(0)
+            if A[a].reg:
+                for i in self.subtree(a, len(A[a].kids) + 64):
+                    A[i].reg = False
+                    A[i].kids = []
+                if A[a].par is not None:
+                    pp = A[A[a].par]
+                    pp.kids = [y for y in pp.kids if y != a]
+            return True
+        raise ValueError(l)
+
+    def internal_labels(self, a):
+        x = self.A[a]
+        if x.sp == "locked":
+            return [("Snapshot", a)]
+        if x.sp == "kids":
+            if not x.pend:
+                return [("PostBegin", a)]
+            out = []
+            for c, pd in x.pend:
+                out += [("DisownTest", a, c)] if pd == "todo" else [("DisownDone", a, c), ("StopBegin", c)]
+            return out
+        if x.sp == "post":
+            return [] if a in self.gated else [("PostEnd", a)]
+        return []
+
+    def quiesce(self):
+        for _ in range(64 * (self.n + 1)):
+            progressed = False
+            for a in range(self.n):
+                for l in self.internal_labels(a):
+                    if self.step(l):
+                        progressed = True
+                        break
+                if progressed:
+                    break
+            if not progressed:
+                if self.term:
+                    self.step(("Reap", self.term[0]))
+                    continue
+                return
+
+    def drive(self, d):
+        k = d[0]
+        ok = True
+        if k == "spawn":
+            ok = self.step(("SpawnCheck", d[1], d[2])) and self.step(("SpawnInit", d[2])) and self.step(("SpawnAdd", d[2]))
+        elif k == "spawn_gated":
+            ok = self.step(("SpawnCheck", d[1], d[2]))
+        elif k == "spawn_release":
+            ok = self.step(("SpawnInit", d[1])) and self.step(("SpawnAdd", d[1]))
+        elif k == "stop":
+            self.step(("StopBegin", d[1]))
+        elif k == "release":
+            ok = self.step(("PostEnd", d[1]))
+        if not ok:
+            return 1
+        self.quiesce()
+        return 0
+
+    def observe(self):
+        out = []
+        done = {a for (e, a) in self.trace if e == "PostE"}
+        for a in range(self.n):
+            x = self.A[a]
+            out.append([int(x.sp == "post"), int(self.is_running(a)), int(a in done), int(x.reg)])
+            out.append(sorted(self.children(a)))
+        return out
+
+
+# ---- scenario generation
+CORPUS_SCENARIOS = [
+    # concurrent stop of overlapping subtrees: Kill(child) sits in the child's PostStop while the parent is shut down
+    {"n": 3, "gated": [2], "actions": [["spawn", 0, 1], ["spawn", 1, 2], ["stop", 2], ["stop", 1], ["release", 2]], "tag": "concurrent-stop"},
+    # SpawnChild in flight (child PreStart blocked) while the parent is shut down
+    {"n": 3, "gated": [], "actions": [["spawn", 0, 1], ["spawn_gated", 1, 2], ["stop", 1], ["spawn_release", 2]], "tag": "spawn-race"},
+    # plain three-level stop, every PostStop gated: children strictly first
+    {"n": 5, "gated": [1, 2, 3, 4], "actions": [["spawn", 0, 1], ["spawn", 1, 2], ["spawn", 1, 3], ["spawn", 3, 4], ["stop", 1],
+                                               ["release", 2], ["release", 4], ["release", 3], ["release", 1]], "tag": "three-level"},
+    # stop of an already stopped actor, then of its parent
+    {"n": 3, "gated": [1], "actions": [["spawn", 0, 1], ["spawn", 1, 2], ["stop", 2], ["stop", 2], ["stop", 1], ["release", 1], ["stop", 1]], "tag": "restop"},
+    # two stoppers on the same actor
+    {"n": 4, "gated": [1, 3], "actions": [["spawn", 0, 1], ["spawn", 1, 2], ["spawn", 2, 3], ["stop", 1], ["stop", 1], ["release", 3], ["release", 1]], "tag": "double-stop"},
+]
+
+
+def finish_scenario(sim, actions, expect):
+    """release everything so that the scenario ends quiescent with all gates used up"""
+    for _ in range(4 * sim.n + 8):
+        blocked = [a for a in range(sim.n) if sim.A[a].sp == "post" and a in sim.gated]
+        checked = [c for c in range(sim.n) if sim.A[c].ph == "checked"]
+        if blocked:
+            d = ["release", blocked[0]]
+        elif checked:
+            d = ["spawn_release", checked[0]]
+        else:
+            break
+        sim.drive(d)
+        actions.append(d)
+        expect.append(sim.observe())
+
+
+def gen_scenarios(ctx, ws=False):
+    import random
+    rng = random.Random(ctx.seed * 7919 + 13)
+    n_sc = 400 if ctx.thorough else 36
+    out = []
+    for c in CORPUS_SCENARIOS:
+        sim = StopSim(c["n"], c["gated"], ws)
+        actions, expect = [], []
+        for d in c["actions"]:
+            sim.drive(d)
+            actions.append(d)
+            expect.append(sim.observe())
+        finish_scenario(sim, actions, expect)
+        out.append({"n": c["n"], "gated": c["gated"], "actions": actions, "expect": expect, "tag": c["tag"]})
+    while len(out) < n_sc:
+        n = rng.choice([3, 4, 5, 6, 7, 8])
+        m = rng.randint(2, n - 1) if n > 3 else 2      # ids 1..m-1 built up front, the rest spawned later
+        gated = [a for a in range(n) if rng.random() < 0.6]
+        sim = StopSim(n, gated, ws)
+        actions, expect = [], []
+
+        def do(d):
+            sim.drive(d)
+            actions.append(d)
+            expect.append(sim.observe())
+        shape = rng.choice(["random", "chain", "star"])
+        for c in range(1, m):
+            p = {"random": rng.randrange(c), "chain": c - 1, "star": 0 if c == 1 else 1}[shape]
+            do(["spawn", p, c])
+        fresh = list(range(m, n))
+        for _ in range(rng.choice([3, 6, 10, 14])):
+            started = [a for a in range(n) if sim.A[a].started]
+            running = [a for a in started if sim.is_running(a)]
+            blocked = [a for a in range(n) if sim.A[a].sp == "post" and a in sim.gated]
+            checked = [c for c in range(n) if sim.A[c].ph == "checked"]
+            r = rng.random()
+            if r < 0.35:
+                pool = running if running and rng.random() < 0.8 else started
+                do(["stop", rng.choice(pool)])
+            elif r < 0.65 and blocked:
+                do(["release", rng.choice(blocked)])
+            elif r < 0.78 and fresh:
+                pool = running if running and rng.random() < 0.85 else started
+                do(["spawn_gated", rng.choice(pool), fresh.pop(0)])
+            elif r < 0.88 and checked:
+                do(["spawn_release", rng.choice(checked)])
+            elif r < 0.95 and fresh:
+                pool = running if running and rng.random() < 0.85 else started
+                do(["spawn", rng.choice(pool), fresh.pop(0)])
+            elif blocked:
+                do(["release", rng.choice(blocked)])
+        finish_scenario(sim, actions, expect)
+        if rng.random() < 0.7:
+            do(["stop", 0])
+            finish_scenario(sim, actions, expect)
+        out.append({"n": n, "gated": gated, "actions": actions, "expect": expect, "tag": "gen"})
+    return out
+
+
+def coq_daction(d):
+    k = d[0]
+    return {"spawn": "DSpawn %d %d", "spawn_gated": "DSpawnGated %d %d", "spawn_release": "DSpawnRelease %d",
+            "stop": "DStop %d", "release": "DRelease %d"}[k] % tuple(d[1:])
+
+
+def scenario_oracle(sc, out):
+    """C09's own predicate on one real run; returns list of (signature, what, detail)."""
+    ev = out["events"]
+    n = sc["n"]
+    t = {}          # (kind, actor) -> seq of first occurrence
+    counts = {}
+    for e in ev:
+        key = (e["kind"], e["a"])
+        counts[key] = counts.get(key, 0) + 1
+        t.setdefault(key, e["seq"])
+    found = []
+    # exactly once
+    for (kind, a), c in counts.items():
+        if kind in ("pre", "postb", "poste") and c > 1:
+            found.append(("lifecycle-event-twice", "actor a%d: %s happened %d times" % (a, kind, c), {"actor": a, "kind": kind}))
+    # parent relation from the script, spawn interval from the events
+    par = {}
+    for d in sc["actions"]:
+        if d[0] in ("spawn", "spawn_gated"):
+            par[d[2]] = d[1]
+    spawn_ok = {c for c in par if any(e["kind"] == "spawnret" and e["a"] == c and not e.get("err") for e in ev)}
+
+    def ancestors(c):
+        while c in par:
+            c = par[c]
+            yield c
+    sysstop = t.get(("sysstop", -1), 10 ** 18)
+    for d in sorted(spawn_ok):
+        for a in ancestors(d):
+            tb = t.get(("postb", a))
+            if tb is None:
+                continue
+            te_d = t.get(("poste", d))
+            spawn_call = t.get(("spawncall", d), 0)
+            spawn_ret = t.get(("spawnret", d), 10 ** 18)
+            if te_d is not None and te_d < tb:
+                continue
+            # descendant's PostStop did not complete before the ancestor's PostStop began
+            stop_calls_a = [e["seq"] for e in ev if e["kind"] == "call" and e["a"] == a]
+            first_stop_a = min(stop_calls_a) if stop_calls_a else sysstop
+            in_flight_spawn = spawn_call < tb and spawn_ret > first_stop_a
+            # a stop of d, or of an actor between a and d, requested elsewhere and not finished when a's PostStop began
+            between = [d] + [x for x in ancestors(d)]
+            between = between[:between.index(a)]
+            d_stop_in_flight = any(e["kind"] == "call" and e["a"] in between and e["seq"] < tb and
+                                   (t.get(("poste", e["a"])) is None or t.get(("poste", e["a"])) > tb) for e in ev)
+            if in_flight_spawn:
+                sig = "running-child-under-stopped-parent:spawnchild-in-flight"
+            elif d_stop_in_flight:
+                sig = "children-first:descendant-stop-already-in-flight"
+            else:
+                sig = "children-first"
+            found.append((sig, "PostStop of a%d began (seq %d) before PostStop of its descendant a%d completed (%s)" %
+                          (a, tb, d, "seq %d" % te_d if te_d is not None else "never"), {"ancestor": a, "descendant": d}))
+            break
+    # stopped on return: when Shutdown(a) returned nil, no descendant may report IsRunning afterwards
+    return found
+
+
+def stop_tie(ctx, stats, scs, outs):
+    # which disown test does the tree under check have?  Decided by BEHAVIOUR on the corpus scenario
+    # 'concurrent-stop': after `stop 1` either the parent's PostStop completed while the child sits in
+    # its PostStop gate (code as it is) or the parent waits (repaired freeChildren).
+    st3 = outs[0]["steps"][3]["o"]
+    variant = not (st3[2 * 1][2] == 1 and st3[2 * 2][0] == 1)
+    ctx.c09_ws = variant
+    if variant:
+        # expectations (what the harness waits for) regenerated for the repaired disown test
+        scs = gen_scenarios(ctx, True)
+        write_inputs(ctx, [], scs)
+        rc, out = go_run(ctx)
+        outs = read_jsonl(os.path.join(ctx.work, "c09_stop_out.jsonl"))
+        if rc != 0 or len(outs) != len(scs):
+            ctx.tie_broken("go-harness stop scenarios (second pass)", out)
+            return
+    n_steps = 0
+    hist = {}
+    nontrivial = set()
+    seen_sigs = {}
+    timeouts = 0
+    for sc, o in zip(scs, outs):
+        n_steps += len(o["steps"])
+        timeouts += sum(1 for s_ in o["steps"] if s_["timeout"])
+        for d in sc["actions"]:
+            hist[d[0]] = hist.get(d[0], 0) + 1
+        for sig, what, detail in scenario_oracle(sc, o):
+            if seen_sigs.get(sig, 0) < 2:
+                seen_sigs[sig] = seen_sigs.get(sig, 0) + 1
+                ctx.violation(sig, what, {"scenario": {k: sc[k] for k in ("n", "gated", "actions")}, "detail": detail,
+                                          "events": o["events"], "how": "TestVerifC09Stop scenario (PostStop/PreStart gated by the harness)"})
+        # non-trivial: a stop of an actor that has a running descendant at that time (per expectations)
+        sim = StopSim(sc["n"], sc["gated"], getattr(ctx, "c09_ws", False))
+        for d in sc["actions"]:
+            if d[0] == "stop" and sim.is_running(d[1]) and any(sim.is_running(c) for c in sim.children(d[1])):
+                nontrivial.add(canon_hash({k: sc[k] for k in ("n", "gated", "actions")}))
+            sim.drive(d)
+    # ---- the Coq model on the same scenarios, compared with what the implementation showed
+    items = []
+    for sc, o in zip(scs, outs):
+        ds = ";".join(coq_daction(d) for d in sc["actions"])
+        exp = ";".join("(%d,%s)" % (st["f"], nll(st["o"])) for st in o["steps"])
+        items.append("(%s,%d,[%s],[%s])" % (nl(sc["gated"]), sc["n"], ds, exp))
+    body = """From Coq Require Import List. Import ListNotations.
+From GV Require Import C09.StopModel.
+Definition cases : list (list nat * nat * list daction * list (nat * list (list nat))) := [
+%s
+].
+Definition diffs := combine (seq 0 (length cases)) (map (scenario_diff %s) cases).
+Definition bad := filter (fun x => match snd x with Some _ => true | None => false end) diffs.
+Definition summary := (length cases, length bad, map (fun x => (fst x, match snd x with Some s => s | None => 0 end)) (firstn 3 bad)).
+Eval vm_compute in summary.
+""" % (";\n".join(items), "WS")
+    variant = stop_variant(ctx)
+    body = body.replace("WS", "true" if variant else "false")
+    rc2, o2 = ctx.coq_eval("cases_C09_stop", body)
+    flat = " ".join(o2.split())
+    m = re.search(r"= \((\d+), (\d+), (\[.*?\])\)", flat)
+    mism = None
+    if rc2 != 0 or not m:
+        ctx.tie_broken("stop model evaluation (cases.v did not evaluate)", o2)
+    else:
+        mism = int(m.group(2))
+        if mism:
+            firsts = re.findall(r"\((\d+), (\d+)\)", m.group(3))
+            detail = []
+            for ci, si in firsts:
+                ci, si = int(ci), int(si)
+                detail.append({"scenario": {k: scs[ci][k] for k in ("n", "gated", "actions")}, "first_diverging_action_index": si,
+                               "implementation_showed": outs[ci]["steps"][si] if si < len(outs[ci]["steps"]) else None,
+                               "generator_expected": scs[ci]["expect"][si] if si < len(scs[ci]["expect"]) else None})
+            ctx.tie_broken("stop-protocol model vs real actor system (observation after every driver action)",
+                           {"variant": "repaired disown test" if variant else "code as it is", "mismatching_scenarios": mism, "first": detail})
+    stats.update({"stop_scenarios": len(scs), "stop_steps": n_steps, "stop_action_histogram": hist, "stop_wait_timeouts": timeouts,
+                  "stop_distinct_nontrivial": len(nontrivial), "stop_model_mismatches": mism,
+                  "stop_model_variant": "ws=true (repaired freeChildren)" if variant else "ws=false (code as it is)"})
+    stats.setdefault("samples", []).append({"stop_scenario": {k: scs[2][k] for k in ("n", "gated", "actions")}})
+
+
+def stop_variant(ctx):
+    """which disown test does the tree under check have?  Decided by BEHAVIOUR: the corpus scenario
+    'concurrent-stop' run on the real system either lets the parent finish while the child sits in
+    PostStop (code as it is) or not (repaired).  Set by stop_probe()."""
+    return getattr(ctx, "c09_ws", False)
